@@ -306,7 +306,9 @@ def text(ctx, rule):
             stack.extend((p, l) for l, p in m.pred)
         ctx.ob(rule, "index/%s@%d" % (unparse(x), n_idx), bad is None,
                "urls_from_text indexes `%s` although `%s` may have left it empty: IndexError on a markdown link with an empty target" % (unparse(x), unparse(bad.ast)[:40] if bad else ""), mod.site(x), witness="[http://a.bc/x](")
-    ctx.require_instances(rule, n_idx, 2, "index sites in urls_from_text")
+    # slices cannot raise: they count as analysed sites, not as obligations
+    n_slices = sum(1 for n in g.nodes if n.ast is not None for x in ast.walk(n.ast) if isinstance(x, ast.Subscript) and isinstance(x.slice, ast.Slice))
+    ctx.require_instances(rule, n_idx + n_slices, 2, "subscript sites in urls_from_text")
     # unpack of split("](", 1) guarded by the separator test
     for node in ast.walk(fn):
         if isinstance(node, ast.Assign) and isinstance(node.targets[0], ast.Tuple) and isinstance(node.value, ast.Call) and isinstance(node.value.func, ast.Attribute) and node.value.func.attr == "split":
